@@ -4,6 +4,9 @@
 -/
 import Lean
 
+/-- projection lemmas of the executor model's helper functions -/
+register_simp_attr exec_proj
+
 namespace Babylon.Exec
 open Lean Elab Tactic Meta
 
